@@ -171,16 +171,16 @@ def run_spec(spec, props=("C03",)):
             for r in runs:
                 if r.exc is not None:
                     A.add(V("C03", fn, cls, "exception", "%s raised %r (spec %s)" % (fn, r.exc, name), r.chosen()))
-                elif sum(rates(tuple(spec["IC"])).values()) > TOL and tmin + 0 < tmax:
+                elif sum(rates(tuple(spec["IC"])).values()) > 0 and tmin + 0 < tmax:
                     A.add(V("C03", fn, cls, "never_starts", "no waiting time was ever drawn although the chain can move (spec %s)" % name, r.chosen()))
         for sg in segs:
             st = sg.state
             R = rates(st); RT = sum(R.values())
             A.states.add(st)
             t_after = tmin + sg.ordinal + 1
-            if abs(sg.rate - RT) > TOL * max(1.0, RT):
+            if abs(sg.rate - RT) > TOL * max(abs(sg.rate), abs(RT)):     # relative: rates of any magnitude
                 A.add(V("C03", fn, cls, "clock_rate", "spec %s state %r: waiting time drawn with rate %r, chain has %r" % (name, st, sg.rate, RT), sg.prefix, sg.rate, RT))
-            should_end = (RT <= TOL) or (t_after >= tmax)
+            should_end = (RT <= 0) or (t_after >= tmax)
             succ = {}
             for lf, p in sg.dist.items():
                 if lf[0] == "EXC":
@@ -193,7 +193,7 @@ def run_spec(spec, props=("C03",)):
                 else:
                     nxt = lf[1]
                     succ[nxt] = succ.get(nxt, 0.0) + p
-                    if lf[0] == "END" and sum(rates(nxt).values()) > TOL and t_after + 0 < tmax and nxt != st:
+                    if lf[0] == "END" and sum(rates(nxt).values()) > 0 and t_after + 0 < tmax and nxt != st:
                         A.add(V("C03", fn, cls, "ends_early", "spec %s: after %r -> %r the run stops although the chain can move" % (name, st, nxt), sg.prefix))
             for nxt, p in succ.items():
                 A.trans.add((st, nxt))
@@ -207,7 +207,7 @@ def run_spec(spec, props=("C03",)):
                     A.add(V("C03", fn, cls, sym, "spec %s state %r -> %r offered with probability %.12g, specification gives %.12g" % (name, st, nxt, p, want), sg.prefix, p, want))
             if not should_end:
                 for nxt, r_ in R.items():
-                    if r_ > TOL and nxt not in succ:
+                    if r_ > 0 and r_ / RT > 1e-12 and nxt not in succ:
                         A.add(V("C03", fn, cls, "missing_event", "spec %s state %r: enabled transition to %r (rate %r) never offered" % (name, st, nxt, r_), sg.prefix))
     # per execution
     legal_moves = set()
@@ -334,6 +334,7 @@ def catalogue():
     c.append(("selfexcite", [], [[["A", "A"], ["A", "B"], 0.3, None, None]], "AB"))
     c.append(("zeroweights", [["I", "S", 0.7, None, "zero1"]], [[["I", "S"], ["I", "I"], 0.3, None, "zero01"]], "SI"))
     c.append(("SIRS_int0", [[2, 0, 0.7, None, None], [0, 1, 0.2, None, None]], [[[2, 1], [2, 2], 0.3, None, None]], [1, 2, 0]))
+    c.append(("tinySIR", [["I", "R", 1e-9, None, None]], [[["I", "S"], ["I", "I"], 3e-9, None, None]], "SIR"))     # a slow clock is the same chain
     c.append(("defaultweight", [["I", "R", 0.7, None, None]], [[["I", "S"], ["I", "I"], 0.3, "weight", None]], "SIR"))
     return c
 
